@@ -67,7 +67,7 @@ def run(ctx):
             ctx.ob("C39.D1-per-stream-counter", cname(f, s), ok, "" if ok else "the counter is written elsewhere", where=where(f, s))
     # D2
     em = repo.func(ST, f"{CL}.emit")
-    b = [A.norm(s) for s in em.node.body if not (isinstance(s, ast.Expr) and isinstance(s.value, ast.Constant))]
+    b = [A.norm(s) for s in A.body(em.node)]
     ok = b == ["schema_validators[name].validate(doc)", "self.dispatcher.process(name, doc)"]
     ctx.ob("C39.D2-validated-and-ordered", cname(em, None, "validate, then dispatch"), ok, "" if ok else f"{b}", where=where(em, em.node))
     n_direct = sum(1 for k, f in repo.funcs.items() if k.startswith(f"{ST}:{CL}.") and f.key != em.key for c in A.calls_in(f.node) if (A.call_name(c) or "").endswith("dispatcher.process"))
